@@ -36,6 +36,9 @@ def gen(ctx):
             yield Case("XPT", "over %s %s" % (kind, mode), tags=("oversize",))
     yield Case("XPT", "rawaddr b", tags=("rawaddr",))
     yield Case("XPT", "rawaddr nb", tags=("rawaddr",))
+    # a nonblocking sender bursting at a receiver that only drains later (full kernel queue): received = exactly the acked sends
+    yield Case("XPT", "late nb", tags=("late-receiver",))
+    yield Case("XPT", "late nbs", tags=("late-receiver",))
     yield Case("XPT", "dead chan", tags=("dead",))
     yield Case("XPT", "dead unix", tags=("dead",))
     big = 20000 if ctx.thorough else 3000
@@ -83,7 +86,7 @@ def project(c, r):
 
 def classify(c, r):
     a = c.args.split(" ")
-    if a[0] in ("dead", "over", "rawaddr"):
+    if a[0] in ("dead", "over", "rawaddr", "late"):
         return [a[0] + ":" + r]
     inter = 0
     if r.startswith("SENT "):
@@ -99,11 +102,11 @@ def classify(c, r):
 
 def nontrivial(c, r):
     a = c.args.split(" ")
-    return a[0] not in ("dead", "over", "rawaddr") and (int(a[2]) >= 2 or int(a[3]) >= 100)
+    return a[0] not in ("dead", "over", "rawaddr", "late") and (int(a[2]) >= 2 or int(a[3]) >= 100)
 
 
 def oracle(c, impl_res):
     a = c.args.split(" ")
-    if a[0] in ("dead", "over", "rawaddr"):
+    if a[0] in ("dead", "over", "rawaddr", "late"):
         return ("ORC", "C19 %s @@ %s" % (a[0], impl_res))
     return ("ORC", "C19 %s %s %s %s %s @@ %s" % (a[2], a[3], a[4], a[5], a[1], impl_res))
